@@ -9,6 +9,7 @@ from vf import core
 
 META = {
     'property_id': 'C11',
+    'confirm_by_replay': True,   # bin/check re-executes the stimulus of every violation before it is reported
     'level': 'model_checking',
     'technique': 'TLA+ spec (Cursors.tla: compacted cursor log + LRU cache + lock/scan/fill steps of SetCursor and '
                  'FetchCursor) checked exhaustively by TLC; TLC-generated behaviours replayed on the real cursor '
